@@ -3,6 +3,7 @@
    re-ordering (_optimize_node), the result serialisers and the web stacks are runtime and only exercised. *)
 From Curies.model Require Import Str PyData Trie Conv Query Val Answer Spec CheckQ Mapping.
 From Curies.proofs Require Import StrFacts IndexFacts QueryFacts LawFacts MappingFacts.
+From Curies.proofs Require Import PModelS.
 
 (* what the graph yields for a bound URI u over a configured predicate: the valid renderings of u's record *)
 Theorem C18_answers : forall inv d rs c, mk_conv true d rs = Val c -> forall u, equivalents inv c u = spec_equivalents inv rs u.
@@ -45,3 +46,8 @@ Theorem C18_relative : forall inv d rs c, mk_conv true d rs = Val c -> forall is
                           | _ => None end).
 Proof. exact triples_relative. Qed.
 Print Assumptions C18_relative.
+
+(* the executable predicate of the run accepts the model's own observation on every valid case *)
+Theorem C18_P_model : forall k : scase, valid_s k = true -> P_C18 k (model_sobs k) = true.
+Proof. exact P_C18_model. Qed.
+Print Assumptions C18_P_model.
